@@ -210,9 +210,10 @@ def files_vs_stdout(argv, r, d):
     rd = run_real(["--stdout", "--data"] + base, d)
     if rc["code"] != 0 or rd["code"] != 0:
         return "assemble succeeds into files but fails with --stdout"
-    if r["contents"][lcode[0]].rstrip("\n") != rc["out"].rstrip("\n"):
+    # (reading the program from stdin prints one separating blank line first, by design)
+    if r["contents"][lcode[0]].strip("\n") != rc["out"].strip("\n"):
         return "{} differs from the --stdout --code output".format(lcode[0])
-    if r["contents"][ldata[0]].rstrip("\n") != rd["out"].rstrip("\n"):
+    if r["contents"][ldata[0]].strip("\n") != rd["out"].strip("\n"):
         return "{} differs from the --stdout --data output".format(ldata[0])
     return None
 
